@@ -1,6 +1,7 @@
 package props
 
 import (
+	"strings"
 	"bytes"
 	"context"
 	"encoding/base64"
@@ -34,7 +35,50 @@ func init() {
 
 var c07Carriers = []string{"GetBlob", "GetBlobRange", "GetManifest", "GetTag", "ResolveBlob", "ResolveManifest", "ResolveTag",
 	"PushBlobChunked", "PushBlobChunkedResume", "MountBlob", "PushManifest", "DeleteBlob", "DeleteManifest", "DeleteTag",
-	"Repositories", "Tags", "Referrers"}
+	"Repositories", "Tags", "Referrers",
+	// the error arises later, in the BlobWriter the backend handed out
+	"Writer.Write", "Writer.Close", "Writer.Commit"}
+
+// failingWriter is a BlobWriter whose chosen method fails with err.
+type failingWriter struct {
+	fail string
+	err  error
+	n    int64
+}
+
+func (w *failingWriter) Write(p []byte) (int, error) {
+	if w.fail == "Writer.Write" {
+		return 0, w.err
+	}
+	w.n += int64(len(p))
+	return len(p), nil
+}
+func (w *failingWriter) Close() error {
+	if w.fail == "Writer.Close" {
+		return w.err
+	}
+	return nil
+}
+func (w *failingWriter) Size() int64    { return w.n }
+func (w *failingWriter) ChunkSize() int { return 1 }
+func (w *failingWriter) ID() string     { return "verif-upload" }
+func (w *failingWriter) Cancel() error  { return nil }
+func (w *failingWriter) Commit(d ociregistry.Digest) (ociregistry.Descriptor, error) {
+	if w.fail == "Writer.Commit" {
+		return ociregistry.Descriptor{}, w.err
+	}
+	return ociregistry.Descriptor{Digest: d, Size: w.n, MediaType: "application/octet-stream"}, nil
+}
+
+func writerBackend(carrier string, err error) ociregistry.Interface {
+	w := &failingWriter{fail: carrier, err: err}
+	return &ociregistry.Funcs{
+		PushBlobChunked_: func(ctx context.Context, repo string, chunkSize int) (ociregistry.BlobWriter, error) { return w, nil },
+		PushBlobChunkedResume_: func(ctx context.Context, repo, id string, offset int64, chunkSize int) (ociregistry.BlobWriter, error) {
+			return w, nil
+		},
+	}
+}
 
 func scriptedBackend(err error) ociregistry.Interface {
 	return &ociregistry.Funcs{NewError: func(ctx context.Context, method, repo string) error { return err }}
@@ -152,6 +196,19 @@ func c07(env *core.Env) {
 			var perr interface{ Unwrap() error }
 			_ = perr
 			return err
+		case "Writer.Write", "Writer.Close", "Writer.Commit":
+			w, err := r.PushBlobChunked(ctx, repo, 1)
+			if err != nil {
+				return fmt.Errorf("harness: upload could not be started: %v", err)
+			}
+			if _, err := w.Write([]byte("x")); err != nil {
+				return err
+			}
+			if carrier == "Writer.Commit" {
+				_, err = w.Commit(dig)
+				return err
+			}
+			return w.Close()
 		case "MountBlob":
 			_, err := r.MountBlob(ctx, "other/repo", repo, dig)
 			return err
@@ -180,6 +237,9 @@ func c07(env *core.Env) {
 	var texts []string
 	for hops := 1; hops <= 3; hops++ {
 		var r ociregistry.Interface = scriptedBackend(orig)
+		if strings.HasPrefix(carrier, "Writer.") {
+			r = writerBackend(carrier, orig)
+		}
 		o := &stackOpts{OneByte: c.Bool("onebyte", 1, 10), EOFData: c.Bool("eofdata", 1, 4)}
 		for i := 0; i < hops; i++ {
 			r, _ = httpHop(env, r, o, fmt.Sprintf("hop%d", i))
